@@ -7,7 +7,7 @@ from hypothesis import strategies as st
 
 from .. import arr as A
 from .. import unit as U
-from ..core import Failure, drive, drive_enum
+from ..core import sstr, Failure, drive, drive_enum
 from ..gen import arrays as G
 
 ID = "C07"
@@ -28,7 +28,7 @@ RULE = (
     "dyadic lattice values with forced zeros/ties, masks, weights of ints/floats; (errors) mismatched shapes of rank "
     "1-3, wrong weight counts, empty input lists. Oracle: exact-rational reference per cell; division by an exact "
     "zero must be missing; all orderings equal within 1e-12 and same outcome kind; error class equality and "
-    "str(exc) must not raise. Non-trivial: int and float inputs mixed with an int first, or a zero divisor, or n>=3, "
+    "sstr(exc) must not raise. Non-trivial: int and float inputs mixed with an int first, or a zero divisor, or n>=3, "
     "or an error case; distinct = digest of the case."
 )
 ASSUMPTIONS = [
